@@ -141,4 +141,24 @@ def serveConn (e : Endpoint) (t : List UInt8) : Served :=
   else if e.useProxy then ⟨[], true, none, 0⟩
   else ⟨[], false, some t, 0⟩
 
+/-! ## the client daemon: how the listener's credentials come out of the configuration
+
+`clientRunFunc` (pkg/cli/client.go, the body of `mieru run`):
+```
+var socks5IngressCredentials []socks5.Credential
+for _, auth := range config.GetSocks5Authentication() {
+    socks5IngressCredentials = append(socks5IngressCredentials, socks5.Credential{User: auth.GetUser(), Password: auth.GetPassword()})
+}
+socks5Config := &socks5.Config{UseProxy: true, AuthOpts: socks5.Auth{ClientSideAuthentication: true, IngressCredentials: socks5IngressCredentials}, …}
+```
+-/
+
+/-- the loop above: start from the nil slice, append one `Credential` per configured pair -/
+def ingressCredentials (configured : List Cred) : List Cred :=
+  configured.foldl (fun acc a => acc ++ [⟨a.user, a.pass⟩]) []
+
+/-- the SOCKS5 listener `mieru run` starts for a configuration with these `socks5Authentication` pairs -/
+def daemonEndpoint (configured : List Cred) : Endpoint :=
+  ⟨true, true, ⟨ingressCredentials configured⟩⟩
+
 end Mieru.SocksAuth
